@@ -25,6 +25,7 @@ import (
 	"github.com/pkg/errors"
 	"go.uber.org/multierr"
 	"google.golang.org/grpc/codes"
+	"google.golang.org/grpc/metadata"
 	"google.golang.org/grpc/status"
 
 	"github.com/oxia-db/oxia/common/concurrent"
@@ -373,6 +374,16 @@ func (fc *followerController) Replicate(stream proto.OxiaLogReplication_Replicat
 	if fc.closeStreamWg != nil {
 		fc.Unlock()
 		return constant.ErrLeaderAlreadyConnected
+	}
+
+	// A stream opened by the leader of another term must be refused right away: the sync
+	// routine would otherwise acknowledge on it entries that were appended by the current leader
+	if md, ok := metadata.FromIncomingContext(stream.Context()); ok {
+		if streamTerm, err := readTerm(md); err == nil && streamTerm >= 0 &&
+			fc.term != wal.InvalidTerm && streamTerm != fc.term {
+			fc.Unlock()
+			return constant.ErrInvalidTerm
+		}
 	}
 
 	closeStreamWg := concurrent.NewWaitGroup(1)
